@@ -563,7 +563,7 @@ theorem sS1_plain_frames (f : Sem) (j : Job) (cl : Cluster) (s s' : Sys) (st : S
   | env es =>
     simp only [step] at hs
     split at hs; · cases hs
-    cases he : envStep f j s.env es with
+    cases he : envStepP f j s.env es with
     | none => simp [he] at hs
     | some e' =>
       simp only [he, Option.map_some, Option.some.injEq] at hs
